@@ -534,6 +534,8 @@ def run(chk):
     from rules import C12
 
     chk.include(C12.run, ("C12.rp", "C12.reset", "C12.mask"), ("C12.", "C11.rx."))
+    # (round 7, seed C11-7) frames held back by flow control are part of the sequence that was sent (rule shared with C12 / C13)
+    C12.hold_rule(chk, repo, "C11.rx.hold", "the frames held back by flow control are lost: the receiver gets a correct prefix of the messages that were sent and then the end of the stream (`received 20 of 47 messages`), while the same frames read one per segment all arrive")
 
 
 def bytelen(chk, repo, fn, param: str, rule: str):
